@@ -79,6 +79,17 @@ def gen_kw(g, t, gtis, tstart=None, tstop=None):
     mode = g.uniform()
     if mode < 0.6:
         r = g.uniform()
+        if r > 0.88 and tstart is not None and t.min() > tstart and t.max() < tstop:
+            # a window strictly inside [TSTART, TSTOP] whose edges fall in the event-free margins: every event is kept, the keywords still change
+            a, b = float((tstart + t.min()) / 2.), float((t.max() + tstop) / 2.)
+            side = g.uniform()
+            if side < 0.4:
+                kw['tmin'], kw['tmax'] = a, b
+            elif side < 0.7:
+                kw['tmin'] = a
+            else:
+                kw['tmax'] = b
+            return kw
         gap_ok = len(gtis) > 1 and (tstart is None or (gtis[0][1] + 1. >= tstart and gtis[1][0] - 1. <= tstop))   # the file may have been narrowed by an earlier selection: a window outside [TSTART, TSTOP] is (rightly) refused
         if r < 0.12 and gap_ok:     # a window entirely inside the gap between two GTIs: selects no event
             a, b = sorted(g.uniform(gtis[0][1] + 1., gtis[1][0] - 1., 2))
@@ -192,5 +203,6 @@ def main(chk):
 
 
 def replay(body):
-    out(body['what'])
-    return 1
+    import sys
+    import common
+    return common.replay_rerun(sys.modules[__name__], body)
